@@ -120,6 +120,10 @@ def r1(ctx: Ctx) -> None:
                 sym, why = "open", "file input"
             elif isinstance(node.func, ast.Attribute) and node.func.attr == "popitem":
                 sym, why = ".popitem()", "order-dependent removal"
+            elif (tgt or "").split(".")[0] == "numpy" and any(k_.arg == "where" for k_ in node.keywords) and not any(k_.arg == "out" for k_ in node.keywords) and parts[-1] not in ("where", "sum", "mean", "min", "max", "any", "all", "prod", "amax", "amin", "argmax", "argmin", "std", "var"):
+                sym, why = f"np.{parts[-1]}(..., where=...) without out=", "the masked-out entries of the result are uninitialised memory"
+            elif (tgt or "").split(".")[0] == "numpy" and parts[-1] in ("empty", "empty_like", "ndarray"):
+                sym, why = f"np.{parts[-1]}", "uninitialised memory"
             nsites += 1
             if sym is None:
                 continue
